@@ -92,7 +92,7 @@ func Alphabet(names ...string) []Letter {
 	reg(Letter{Name: "ADD mpls 100@D ->2", NI: D, Op: add, Entry: ribx.MPLSEntry(100, 2, "", nil)})
 	reg(Letter{Name: "REPLACE mpls 100@D ->1@V", NI: D, Op: rep, Entry: ribx.MPLSEntry(100, 1, V, nil)})
 	reg(Letter{Name: "DELETE mpls 100@D", NI: D, Op: del, Entry: ribx.MPLSEntry(100, 0, "", nil)})
-	reg(Letter{Name: "DELETE mpls 2^32+100@D", NI: D, Op: del, Entry: ribx.MPLSEntry(1<<32+100, 0, "", nil)})
+	reg(Letter{Name: "DELETE mpls 2^32+100@D", NI: D, Op: del, Entry: ribx.MPLSEntry(1<<32+100, 0, "", nil), Invalid: true})
 	// flushes
 	reg(Letter{Name: "FLUSH D", Flush: []string{D}})
 	reg(Letter{Name: "FLUSH V", Flush: []string{V}})
@@ -291,6 +291,9 @@ func (in *inst) Apply(li int, check bool) []mc.Fail {
 		switch {
 		case l.Op == del:
 			want = "OK"
+			if l.Invalid {
+				want = "FAILED"
+			}
 			if (k == ribx.NH || k == ribx.NHG) && before.Has(l.NI, k, key) && before.Referrers(l.NI, k, key) > 0 {
 				want = "FAILED"
 			}
